@@ -12,6 +12,16 @@ def step_layer1(pid, tier, seed):
     return "layer1", H.run_engine([H.tool("vgraph"), "layer1", "--prop", pid, "--tier", tier, "--seed", str(seed), "--out", out], out)
 
 
+def step_selfcheck(pid, tier, seed):
+    """Trust chain of the reference semantics; a disagreement is a defect of the MACHINERY, never a verdict."""
+    H.build_tools()
+    out = os.path.join(H.OUT, f"{pid}.selfcheck.json")
+    rep = H.run_engine([H.tool("vgraph"), "selfcheck", "--prop", pid, "--tier", tier, "--out", out], out)
+    if rep["violations"]:
+        raise H.MachineryError("reference self-check failed: " + rep["violations"][0]["detail"][:400])
+    return "selfcheck", rep
+
+
 def step_vgraph(cmd):
     def f(pid, tier, seed):
         H.build_tools()
@@ -182,36 +192,36 @@ prop("C01", level="model_checking",
      technique="explicit-state product exploration (captured logos Graph x independent reference automaton), all inputs of every length per definition, over an enumerated definition family",
      text="Exhaustive BFS of the synchronous product of the real pipeline's final Graph with an independently built reference automaton decides longest-match/priority outcome equality for every input of every length, for every definition of a systematically enumerated family; tags OUTCOME, EARLY-STOP.",
      note="Trusted: regex-syntax parser/translator, rustc, harness code. Bounds: definition family F(k)+curated; inputs unbounded at the graph level.",
-     design_ref="5 C01, 3", steps=[step_layer1, step_layer2(["u-dev"], ["u-dev", "u-rel", "f-dev", "f-rel"])], assumptions=L1_ASSUME)
+     design_ref="5 C01, 3", steps=[step_selfcheck, step_layer1, step_layer2(["u-dev"], ["u-dev", "u-rel", "f-dev", "f-rel"])], assumptions=L1_ASSUME)
 prop("C02", level="model_checking",
      technique="explicit-state product exploration (Graph x reference automaton): error fatal offset, stop-consuming point",
      text="The same product exploration decides, for every input of every length, that a match attempt stops exactly at the first symbol after which no pattern can match any extension (tags ERRSPAN, EARLY-STOP, OVERREAD).",
-     note="Same trusted base as C01.", design_ref="5 C02, 3", steps=[step_layer1, step_layer2(["u-dev"], ["u-dev", "u-rel", "f-dev", "f-rel"])], assumptions=L1_ASSUME)
+     note="Same trusted base as C01.", design_ref="5 C02, 3", steps=[step_selfcheck, step_layer1, step_layer2(["u-dev"], ["u-dev", "u-rel", "f-dev", "f-rel"])], assumptions=L1_ASSUME)
 prop("C03", level="model_checking",
      technique="structural invariants on every captured Graph + nullable-pattern rejection over the enumerated family",
      text="Every captured graph is checked for the invariants that make any walk terminate and tile (root records nothing, EOI edges lead to terminal late-accept states, every edge consumes one byte), and every enumerated definition with a pattern that can match the empty string (decided on the reference automaton) must be rejected.",
-     note="Same trusted base as C01.", design_ref="5 C03", steps=[step_layer1, step_layer2(["u-dev"], ["u-dev", "u-rel", "f-dev", "f-rel"])], assumptions=L1_ASSUME)
+     note="Same trusted base as C01.", design_ref="5 C03", steps=[step_selfcheck, step_layer1, step_layer2(["u-dev"], ["u-dev", "u-rel", "f-dev", "f-rel"])], assumptions=L1_ASSUME)
 prop("C07", level="model_checking",
      technique="explicit-state product exploration: at every reachable product state the partial lexer's commit/ask-for-more decision is compared with reference determinedness",
      text="For every prefix of every input (every reachable product state at a legal buffer end) the real return-None condition must coincide with 'some continuation changes the outcome' computed on the reference automaton (tags PARTIAL-UNSOUND, PARTIAL-LATE).",
-     note="Same trusted base as C01.", design_ref="5 C07", steps=[step_layer1, step_layer2(["u-dev"], ["u-dev", "u-rel", "f-dev", "f-rel"])], assumptions=L1_ASSUME)
+     note="Same trusted base as C01.", design_ref="5 C07", steps=[step_selfcheck, step_layer1, step_layer2(["u-dev"], ["u-dev", "u-rel", "f-dev", "f-rel"])], assumptions=L1_ASSUME)
 prop("C08", level="model_checking",
      technique="exhaustive exploration of the reference subset automaton for top-priority ties, compared with the derive's Disambiguation errors over all enumerated pattern pairs/triples x priority schemes",
      text="conflict(reference) <=> Disambiguation(derive), with the same set of named patterns, on every definition of the family that is not rejected for another reason.",
-     note="Same trusted base as C01. Domain: definitions not already rejected for nullable/start-look-behind.", design_ref="5 C08", steps=[step_layer1], assumptions=L1_ASSUME)
+     note="Same trusted base as C01. Domain: definitions not already rejected for nullable/start-look-behind.", design_ref="5 C08", steps=[step_selfcheck, step_layer1], assumptions=L1_ASSUME)
 prop("C09", level="model_checking",
      technique="per enumerated pattern: captured leaf priority vs the documented rule computed on an independently built HIR, cross-checked by 0/1-BFS shortest match on the reference automaton; token-vs-regex consequence by running the captured graph",
      text="For every pattern of the family the priority logos computed equals the documented rule; literal tokens are never beaten on their own text by a default-priority regex.",
-     note="Same trusted base as C01. Exact-value domain: str patterns and byte patterns whose non-ASCII bytes occur only in classes.", design_ref="5 C09", steps=[step_layer1], assumptions=L1_ASSUME)
+     note="Same trusted base as C01. Exact-value domain: str patterns and byte patterns whose non-ASCII bytes occur only in classes.", design_ref="5 C09", steps=[step_selfcheck, step_layer1], assumptions=L1_ASSUME)
 
 prop("C10", level="model_checking", engine="vgraph",
      technique="language equivalence by explicit-state product exploration between the captured graph of each literal definition and a reference built from the literal's bytes / per-character case-fold classes, over all literals up to a length bound",
      text="For every literal of length <= L over an alphabet with every regex metacharacter, cased non-ASCII characters and arbitrary bytes, in token / regex / skip form with and without ignore(case): exact language equivalence for all inputs, and leaf count / kinds / priorities unchanged by ignore(case).",
-     note="Same trusted base as C01; the reference never uses regex_syntax::escape.", design_ref="5 C10", steps=[step_vgraph("c10")], assumptions=L1_ASSUME)
+     note="Same trusted base as C01; the reference never uses regex_syntax::escape.", design_ref="5 C10", steps=[step_selfcheck, step_vgraph("c10")], assumptions=L1_ASSUME)
 prop("C11", level="model_checking", engine="vgraph",
      technique="language equivalence by explicit-state product exploration between the captured graph and a reference built from the harness's own textual inlining, over a subpattern family",
      text="Every definition of the subpattern family (bodies with alternations / inline flags / byte strings, references at start / middle / end / under repetition, one and two levels) is equivalent for all inputs to the reference built from scoped textual inclusion; undefined and forward references must be compile errors.",
-     note="Same trusted base as C01.", design_ref="5 C11", steps=[step_vgraph("c11")], assumptions=L1_ASSUME)
+     note="Same trusted base as C01.", design_ref="5 C11", steps=[step_selfcheck, step_vgraph("c11")], assumptions=L1_ASSUME)
 prop("C16", level="model_checking", engine="vgraph",
      technique="deviation-bounded schedule exploration: every hash-iteration site is a seam owned by the explorer; every seam call x every (bounded set of) permutation, single and paired deviations, both code generators; outputs must be byte-identical",
      text="The only nondeterminism (hash-container iteration order) is put behind seams; all single deviations (and pairs on small definitions) are executed on the real generate() and must leave the generated code and the graph byte-identical. A labelled sample of real hash seeds (fresh threads) supplements it.",
@@ -224,7 +234,7 @@ prop("C18", level="exploration", engine="vgraph",
 prop("C19", level="exploration", engine="vgraph",
      technique="exhaustive enumeration of an attribute grammar (all single items and all pairs) through catch_unwind(generate) and (single items + same-key pairs) through rustc with the real proc-macro; must-reject predicates from the reference",
      text="Every single item and every pair of items of the attribute grammar is run through the library entry point: no panic, and every definition carrying a must-reject predicate (nullable, start look-behind, unsupported feature, greedy dot anywhere, undefined subpattern, bad variant shape) yields compile_error!.",
-     note="Two execution paths: the library entry point under catch_unwind, and rustc on the stable toolchain with the real proc-macro (span operations differ there).", design_ref="5 C19", steps=[step_vgraph("c19")], assumptions=["span operations behave differently inside rustc; covered by the vprobe step"])
+     note="Two execution paths: the library entry point under catch_unwind, and rustc on the stable toolchain with the real proc-macro (span operations differ there).", design_ref="5 C19", steps=[step_vgraph("c19"), step_probe], assumptions=["the derive cannot type-check user-supplied fragments; rustc errors inside those are not counted"])
 
 L2_ASSUME = L1_ASSUME + ["Layer 2 compiles the library expansion (logos_codegen::generate) of a compiled sub-corpus; the proc-macro wrapper is a one-line call of the same function (bound by vderive)",
                          "inputs at Layer 2 are bounded: all strings up to L symbols over a representative alphabet + transition cover x 256 + loop inputs"]
@@ -232,7 +242,7 @@ prop("C04", level="model_checking", engine="vgraph+vrt",
      technique="product of each accepted str-mode pattern's reference automaton with a UTF-8 validity DFA (acceptance side), plus numeric boundary checks of every span observed on compiled lexers over bounded-exhaustive valid UTF-8 inputs",
      text="(a) no accepted str-mode pattern or subpattern has a reachable accepting configuration outside 'between characters' (all strings); (b) every span boundary observed through span()/slice()/remainder() on the compiled lexers is a char boundary, checked numerically before slicing, for all enumerated inputs with 1-4 byte characters.",
      note="Same trusted base as C01; std's is_char_boundary is the boundary oracle.", design_ref="5 C04",
-     steps=[step_layer1, step_layer2(["u-dev", "f-dev"], ["u-dev", "u-rel", "f-dev", "f-rel"])], assumptions=L2_ASSUME)
+     steps=[step_selfcheck, step_layer1, step_layer2(["u-dev", "f-dev"], ["u-dev", "u-rel", "f-dev", "f-rel"])], assumptions=L2_ASSUME)
 prop("C05", level="exploration", engine="vrt",
      technique="exhaustive enumeration of Source::read over every (len, offset, chunk size) incl. wrap-around offsets, and of lexing inputs of every length around the 8-byte batch in exactly sized heap allocations, under valgrind memcheck; default vs forbid_unsafe builds x dev/release compared through the common reference",
      text="Source::read returns Some(bytes) iff offset+N <= len in unbounded arithmetic for every enumerated case in all four builds; every compiled lexer run on exactly sized heap inputs is free of invalid reads under memcheck; unsafe and forbid_unsafe builds (dev and release) produce the reference's transcript with no panic.",
@@ -258,7 +268,7 @@ prop("C20", level="model_checking", engine="vgraph+vrt",
      technique="structural invariants of every captured graph (determinism, one byte per edge) + exhaustive read-trace monitoring of compiled lexers (read-trace hook) over bounded-exhaustive and adversarial inputs",
      text="Every graph edge consumes exactly one byte and states are deterministic; on every replayed input (both back ends, trace build) read offsets never decrease within an attempt, reads are bounded by 2 x bytes examined + 6, and each attempt starts at the end of the previous item or skip.",
      note="The read-trace hook records every LexerInternal::read, next and trivia call (cfg feature verif_hooks).", design_ref="5 C20",
-     steps=[step_layer1, step_layer2(["t-dev"], ["t-dev"])], assumptions=L2_ASSUME)
+     steps=[step_selfcheck, step_layer1, step_layer2(["t-dev"], ["t-dev"])], assumptions=L2_ASSUME)
 
 prop("C13", level="exploration", engine="vderive",
      technique="exhaustive enumeration of all inputs up to a length bound through enums compiled with the REAL derive, carrying callbacks of every documented return type; item streams, spans and callback invocation logs compared with a hand-written reference + the documented table; tail-call vs state-machine transcripts compared by digest",
